@@ -50,6 +50,13 @@ func keyFromPkix(v ssa.Value) (core.Path, bool) {
 				if core.CalleeName(t.Common()) == "crypto/x509.ParsePKIXPublicKey" && x.Index == 0 {
 					return core.PathOf(t.Call.Args[0]), true
 				}
+				// a parsing helper: the key it returns
+				if vals, subst, h := helperResult(x); h != nil && len(vals) == 1 {
+					var pp core.Path
+					ok := false
+					core.WithSubst(subst, func() { pp, ok = keyFromPkix(vals[0]) })
+					return pp, ok
+				}
 			}
 			return core.Path{}, false
 		case *ssa.TypeAssert:
